@@ -522,10 +522,32 @@ def _check_edt(run, repo, world, fns):
                 if isinstance(n, ast.Assign) and "seq.send(" in unparse(
                         n.value) and isinstance(n.targets[0], ast.Name):
                     cmdvars.append(n.targets[0].id)
+        # a transmission happens where its coroutine is awaited: one per
+        # statement, awaited where it is created (handed to gather() /
+        # create_task() the prefix and the command run side by side, and a
+        # failure of one leaves the other on the wire on its own)
+        par_ = {}
+        for x_ in ast.walk(F.fn):
+            for ch_ in ast.iter_child_nodes(x_):
+                if not isinstance(ch_, ast.expr_context):
+                    par_[id(ch_)] = x_
+        is_async = isinstance(F.fn, ast.AsyncFunctionDef)
         tnodes = {}
         for c in calls:
             n = F.node_of(c)
             if n is not None:
+                if is_async:
+                    run.ob("R-EDT", "%s#awaited-where-called" % F.q,
+                           isinstance(par_.get(id(c)), ast.Await) and
+                           n.id not in tnodes,
+                           "`%s` is not awaited on its own where it is "
+                           "called (%s): it runs concurrently with the "
+                           "other transmission of the statement, so the "
+                           "device-type prefix and its command are no "
+                           "longer one after the other" % (
+                               unparse(c, 60), unparse(
+                                   par_.get(id(c)), 60)[:60]),
+                           where(mod, c))
                 tnodes[n.id] = c
         for cv in cmdvars:
             def tr(node, st, cv=cv):
